@@ -601,3 +601,219 @@ Section Hist.
     - exact Ham'.
   Qed.
 End Hist.
+
+(** ---- histories ---- *)
+(** the operations respect the block window: what the harness validates *)
+Fixpoint wf_ops (lo hi : N) (ops : list sx) : bool :=
+  match ops with
+  | [] => true
+  | o :: t =>
+      let z := sx_Z (sx_nth o 0) in
+      if z =? 0 then valid lo hi (dec_loc o) && wf_ops lo hi t
+      else if z =? 1 then wf_ops lo hi t
+      else if z =? 2 then (lo <? hi)%N && wf_ops (N.succ lo) hi t
+      else if z =? 3 then wf_ops lo (N.succ hi) t
+      else false
+  end.
+
+Section DoOp.
+  Variable c : cfg06.
+  Let tb := i_tab c.
+
+  Lemma do_op_put s o :
+    sx_Z (sx_nth o 0) = 0 -> valid (lo s) (hi s) (dec_loc o) = true ->
+    do_op c tb s o =
+    (let '(s', r) := klm_put nat Nat.eqb (i_slot tb) (c_maxget c) (c_maxput c) s
+                             (i_key c (sx_nat (sx_nth o 1))) (dec_loc o) in (s', enc_put r)).
+  Proof. intros E V. unfold do_op. rewrite E. cbv beta iota zeta. rewrite V. reflexivity. Qed.
+
+  Lemma do_op_get s o :
+    sx_Z (sx_nth o 0) = 1 -> exists m, do_op c tb s o = (s, m).
+  Proof. intros E. unfold do_op. rewrite E. cbv beta iota zeta. eexists. reflexivity. Qed.
+
+  Lemma do_op_release s o :
+    sx_Z (sx_nth o 0) = 2 -> (lo s <? hi s)%N = true -> do_op c tb s o = (klm_release nat s, no_metrics false).
+  Proof. intros E V. unfold do_op. rewrite E. cbv beta iota zeta. rewrite V. reflexivity. Qed.
+
+  Lemma do_op_grow s o :
+    sx_Z (sx_nth o 0) = 3 -> do_op c tb s o = (klm_grow nat s, no_metrics false).
+  Proof. intros E. unfold do_op. rewrite E. reflexivity. Qed.
+End DoOp.
+
+Section HistRun.
+  Variable c : cfg06.
+  Hypothesis n_pos : (0 < c_n c)%nat.
+  Let slotf : nat -> nat -> nat := i_slot (i_tab c).
+  Let mg := c_maxget c.
+  Let mp := c_maxput c.
+
+  Lemma run_ops_silent : forall ops h0 st s h,
+    MInv c h0 st s h -> wf_ops (lo s) (hi s) ops = true ->
+    mon_ops c st ops (run_ops c (i_tab c) s ops) = [].
+  Proof.
+    induction ops as [|o ops IH]; intros h0 st s h MI Hwf; [reflexivity|].
+    cbn [wf_ops] in Hwf. cbv zeta in Hwf. cbn [run_ops].
+    pose proof (reach c h0 h s (mi_run c h0 st s h MI)) as HR.
+    destruct (sx_Z (sx_nth o 0) =? 0) eqn:E0.
+    { apply Z.eqb_eq in E0. apply andb_true_iff in Hwf. destruct Hwf as [V Hwf].
+      rewrite (do_op_put c s o E0 V).
+      destruct (klm_put nat Nat.eqb (i_slot (i_tab c)) (c_maxget c) (c_maxput c) s
+                        (i_key c (sx_nat (sx_nth o 1))) (dec_loc o)) as [s' r] eqn:P.
+      cbn [mon_ops].
+      destruct (step_put c n_pos h0 st s h o s' r MI E0 V P) as [Hv HM].
+      destruct (mon_step c st o (L [enc_put r; sweep c (i_tab c) s'])) as [st' v]. cbn [fst snd] in Hv, HM. subst v.
+      cbn [app]. destruct (klm_put_window nat Nat.eqb _ _ _ s _ _ s' r P) as [Elo Ehi].
+      apply (IH h0 st' s' _ HM). rewrite Elo, Ehi. exact Hwf. }
+    destruct (sx_Z (sx_nth o 0) =? 1) eqn:E1.
+    { apply Z.eqb_eq in E1. destruct (do_op_get c s o E1) as [m ->]. cbn [mon_ops].
+      destruct (step_nonput c n_pos h0 st s h o (OGet (i_key c (sx_nat (sx_nth o 1)))) s MI) with (m := m) as [Hv HM].
+      - rewrite E1. discriminate.
+      - intros k l. discriminate.
+      - reflexivity.
+      - rewrite E1. reflexivity.
+      - rewrite E1. reflexivity.
+      - intros _ k. reflexivity.
+      - intros E. rewrite E1 in E. discriminate.
+      - destruct (mon_step c st o (L [m; sweep c (i_tab c) s])) as [st' v]. cbn [fst snd] in Hv, HM. subst v.
+        cbn [app]. apply (IH h0 st' s _ HM). exact Hwf. }
+    destruct (sx_Z (sx_nth o 0) =? 2) eqn:E2.
+    { apply Z.eqb_eq in E2. apply andb_true_iff in Hwf. destruct Hwf as [V Hwf].
+      rewrite (do_op_release c s o E2 V). cbn [mon_ops].
+      destruct (step_nonput c n_pos h0 st s h o ORelease (klm_release nat s) MI) with (m := no_metrics false) as [Hv HM].
+      - rewrite E2. discriminate.
+      - intros k l. discriminate.
+      - cbn [step]. rewrite V. reflexivity.
+      - rewrite E2. reflexivity.
+      - rewrite E2. reflexivity.
+      - intros E. contradiction.
+      - intros _ k. apply (release_exact_thm nat Nat.eqb Nat.eqb_eq (c_n c) slotf (slotf_lt c n_pos) mg mp s k HR).
+      - destruct (mon_step c st o (L [no_metrics false; sweep c (i_tab c) (klm_release nat s)])) as [st' v].
+        cbn [fst snd] in Hv, HM. subst v. cbn [app]. apply (IH h0 st' (klm_release nat s) _ HM). exact Hwf. }
+    destruct (sx_Z (sx_nth o 0) =? 3) eqn:E3; [|discriminate].
+    apply Z.eqb_eq in E3. rewrite (do_op_grow c s o E3). cbn [mon_ops].
+    destruct (step_nonput c n_pos h0 st s h o OGrow (klm_grow nat s) MI) with (m := no_metrics false) as [Hv HM].
+    - rewrite E3. discriminate.
+    - intros k l. discriminate.
+    - reflexivity.
+    - rewrite E3. reflexivity.
+    - rewrite E3. reflexivity.
+    - intros _ k. apply (grow_frame_thm nat Nat.eqb (c_n c) slotf (slotf_lt c n_pos) mg mp s k HR).
+    - intros E. rewrite E3 in E. discriminate.
+    - destruct (mon_step c st o (L [no_metrics false; sweep c (i_tab c) (klm_grow nat s)])) as [st' v].
+      cbn [fst snd] in Hv, HM. subst v. cbn [app]. apply (IH h0 st' (klm_grow nat s) _ HM). exact Hwf.
+  Qed.
+
+  Lemma minv_init h0 :
+    MInv c h0 {| m_lo := 0; m_hi := h0; m_hist := []; m_prev := map (fun _ => None) (c_keys c); m_disc := O;
+                 m_amap := amap_empty nat |} (klm_empty nat (c_n c) h0) [].
+  Proof.
+    constructor; cbn [m_lo m_hi m_hist m_prev m_disc m_amap]; try reflexivity.
+    - rewrite map_const_seq. unfold view. apply map_ext. intros i.
+      symmetry. apply (lookup_empty nat Nat.eqb Nat.eqb_eq (c_n c) slotf mg).
+    - intros i x _ [].
+  Qed.
+End HistRun.
+
+(** without keys every clause is vacuous *)
+Lemma mon_step_nokeys c st o ob : c_keys c = [] -> snd (mon_step c st o ob) = [].
+Proof.
+  intros Hk. rewrite mon_step_eq. cbv zeta. cbn [snd].
+  unfold cl1, cl2, cl3, cl4, cl5, cl6, cl7, changed_. rewrite Hk.
+  cbn [length seq filter forallb existsb negb is_nil]. rewrite !andb_false_r.
+  destruct (sx_Z (sx_nth o 0) =? 0); destruct (sx_Z (sx_nth o 0) =? 2); reflexivity.
+Qed.
+
+Lemma mon_ops_nokeys c : c_keys c = [] -> forall ops obs st, mon_ops c st ops obs = [].
+Proof.
+  intros Hk. induction ops as [|o ops IH]; intros [|ob obs] st; try reflexivity. cbn [mon_ops].
+  pose proof (mon_step_nokeys c st o ob Hk) as H. destruct (mon_step c st o ob) as [st' v]. cbn [snd] in H.
+  subst v. apply IH.
+Qed.
+
+Definition wf06_hist (inp : sx) : bool :=
+  let c := dec_cfg inp in wf_ops 0 (c_h0 c) (c_ops c).
+
+Theorem mon06_hist_silent : forall inp, wf06_hist inp = true -> mon06_hist inp (run06_hist inp) = [].
+Proof.
+  intros inp Hwf. unfold mon06_hist. cbv zeta.
+  destruct (sx_eqb (run06_hist inp) (L [A (-1)])) eqn:Ep; [reflexivity|].
+  unfold run06_hist in *. cbv zeta in *. set (c := dec_cfg inp) in *.
+  destruct (Nat.eqb (c_n c) 0 && negb (is_nil (c_ops c)) && negb (is_nil (c_keys c))) eqn:Ec.
+  { cbn in Ep. discriminate. }
+  cbn [sx_list].
+  destruct (Nat.eqb (c_n c) 0) eqn:En.
+  - cbn [andb] in Ec. apply andb_false_iff in Ec. destruct Ec as [Ec|Ec]; apply negb_false_iff in Ec.
+    + destruct (c_ops c); [reflexivity|discriminate].
+    + rewrite (mon_ops_nokeys c); [reflexivity|]. destruct (c_keys c); [reflexivity|discriminate].
+  - apply Nat.eqb_neq in En. assert (Hn : (0 < c_n c)%nat) by lia.
+    rewrite (run_ops_silent c Hn (c_ops c) (c_h0 c) _ _ [] (minv_init c (c_h0 c))); [reflexivity|].
+    exact Hwf.
+Qed.
+
+(** ---- both kinds of cases ---- *)
+Definition wf06 (inp : sx) : Prop :=
+  if sx_Z (sx_nth inp 0) =? 0 then wf06_hist inp = true
+  else (codec_compares inp = true -> codec_fits (dec_drec inp)).
+
+Theorem mon06_silent : forall inp, wf06 inp -> mon06 inp (run06 inp) = [].
+Proof.
+  intros inp H. unfold wf06 in H. unfold mon06, run06. destruct (sx_Z (sx_nth inp 0) =? 0).
+  - apply mon06_hist_silent. exact H.
+  - apply codec_mon_silent. exact H.
+Qed.
+
+(** ---- every hypothesis is needed ----
+    History cases (the harness refuses all three inputs: it validates the
+    operations against the block window before running anything).
+    One key, one record, h0 = 1 block. *)
+Definition ex_hist (h0 : Z) (ops : list sx) : sx :=
+  L [A 0; A 0; A 1; A 2; A 2; A 0; A h0; L [L [A 1]]; L ops].
+
+(** a Put naming a block outside the window: the model leaves the index alone, clause 5 fires *)
+Example mon06_needs_put_in_window :
+  let inp := ex_hist 1 [L [A 0; A 0; A 5; A 0; A 1]] in
+  ~ wf06 inp /\ mon06 inp (run06 inp) = [5].
+Proof. vm_compute. split; [discriminate|reflexivity]. Qed.
+
+(** a PopFront without blocks: the monitor's window drifts from the model's, clauses 1 and 7 fire later *)
+Example mon06_needs_pop_with_block :
+  let inp := ex_hist 0 [L [A 2]; L [A 3]; L [A 0; A 0; A 0; A 0; A 1]] in
+  ~ wf06 inp /\ mon06 inp (run06 inp) = [1; 7].
+Proof. vm_compute. split; [discriminate|reflexivity]. Qed.
+
+(** an operation kind other than 0..3 (the model treats it as PushBack, the monitor as a no-op) *)
+Example mon06_needs_known_kinds :
+  let inp := ex_hist 0 [L [A 4]; L [A 0; A 0; A 0; A 0; A 1]] in
+  ~ wf06 inp /\ mon06 inp (run06 inp) = [1; 7].
+Proof. vm_compute. split; [discriminate|reflexivity]. Qed.
+
+(** non-vacuity: a well-formed history with a collision, a discard, a release *)
+Example wf06_hist_example :
+  wf06 (L [A 0; A 0; A 2; A 2; A 3; A 7; A 1; L [L [A 1]; L [A 2]; L [A 3]; L [A 1]];
+           L [L [A 0; A 0; A 0; A 0; A 1]; L [A 0; A 1; A 0; A 1; A 1]; L [A 3]; L [A 0; A 2; A 1; A 0; A 1];
+              L [A 1; A 3]; L [A 0; A 3; A 1; A 5; A 2]; L [A 2]; L [A 1; A 0]]]).
+Proof. vm_compute. reflexivity. Qed.
+
+(** Codec cases (the harness refuses all four inputs: keys must have 32
+    bytes, attempt < 2^32, offset and size < 2^63).  Same seed, no damage. *)
+Definition ex_codec (key : list sx) (att off size : Z) : sx :=
+  L [A 1; A 0; A 0; L key; A att; A off; A size; A 7; A 7; A 66].
+
+Example mon06_needs_key_32_bytes :
+  let inp := ex_codec (List.repeat (A 7) 31) 0 0 0 in ~ wf06 inp /\ mon06 inp (run06 inp) = [8].
+Proof. vm_compute. split; [intros H; destruct (H eq_refl) as [H1 _]; discriminate|reflexivity]. Qed.
+Example mon06_needs_attempt_32_bits :
+  let inp := ex_codec (List.repeat (A 7) 32) (2 ^ 32) 0 0 in ~ wf06 inp /\ mon06 inp (run06 inp) = [8].
+Proof. vm_compute. split; [intros H; destruct (H eq_refl) as (_ & H1 & _); discriminate|reflexivity]. Qed.
+Example mon06_needs_offset_64_bits :
+  let inp := ex_codec (List.repeat (A 7) 32) 0 (2 ^ 64) 0 in ~ wf06 inp /\ mon06 inp (run06 inp) = [8].
+Proof. vm_compute. split; [intros H; destruct (H eq_refl) as (_ & _ & H1 & _); discriminate|reflexivity]. Qed.
+Example mon06_needs_size_64_bits :
+  let inp := ex_codec (List.repeat (A 7) 32) 0 0 (2 ^ 64) in ~ wf06 inp /\ mon06 inp (run06 inp) = [8].
+Proof. vm_compute. split; [intros H; destruct (H eq_refl) as (_ & _ & _ & H1); discriminate|reflexivity]. Qed.
+
+(** non-vacuity: epoch id and blocks-from-last beyond their fields and a key
+    "byte" of 300 are harmless *)
+Example wf06_codec_example :
+  wf06 (L [A 1; A (2 ^ 40); A (2 ^ 20); L (A 300 :: List.repeat (A 7) 31); A 1; A 2; A 3; A 7; A 7; A 66]).
+Proof. vm_compute. intros _. repeat split. Qed.
